@@ -12,13 +12,40 @@
 # See the License for the specific language governing permissions and
 # limitations under the License.
 import ast
-from typing import List, Tuple
+from typing import List, Tuple, get_args
 
 from sympy import Symbol
 from sympy.logic.boolalg import Boolean
 
 from ..types import TType, TypeErrorException
 from . import Binding, Env, decompose_to_symbols, exceptions, translate_expression
+
+
+def _type_size(ttype) -> int:
+    if hasattr(ttype, "BIT_SIZE"):
+        return ttype.BIT_SIZE
+    if len(get_args(ttype)) > 0:
+        return sum(_type_size(a) for a in get_args(ttype))
+    return 1
+
+
+def _regroup_bits(bits: list, ttype) -> list:
+    """Regroup a flat list of bits according to the (nested) tuple type ttype"""
+    if _type_size(ttype) != len(bits):
+        return bits
+
+    res: list = []
+    i = 0
+    for a in get_args(ttype):
+        n = _type_size(a)
+        if hasattr(a, "BIT_SIZE"):
+            res.append(bits[i : i + n])
+        elif len(get_args(a)) > 0:
+            res.append(_regroup_bits(bits[i : i + n], a))
+        else:
+            res.append(bits[i])
+        i += n
+    return res
 
 
 def translate_statement(  # noqa: C901
@@ -79,6 +106,12 @@ def translate_statement(  # noqa: C901
             texp, vexp = ret_type.crop((texp, vexp))  # type: ignore
         elif texp != ret_type:
             raise TypeErrorException(texp, ret_type)
+
+        # A tuple-typed name evaluates to the flat list of its bits: regroup them as
+        # the type says, so that the return bits get the names of the declared ones
+        if len(get_args(texp)) > 0 and isinstance(vexp, list):
+            if not any(isinstance(b, list) for b in vexp):
+                vexp = _regroup_bits(vexp, texp)
 
         res = decompose_to_symbols(vexp, "_ret")
         env.bind(Binding("_ret", texp, [x[0] for x in res]))
